@@ -369,6 +369,115 @@ def fn_body(text, name, rel="?"):
         return text[start:i - 1]
 
 
+def _split_args(t):
+    """top-level comma separated pieces of t (brackets and string / char literals respected)"""
+    out, cur, depth = [], [], 0
+    for kind, seg in _segments(t):
+        if kind != "code":
+            cur.append(seg)
+            continue
+        for c in seg:
+            if c in "([{":
+                depth += 1
+            elif c in ")]}":
+                depth -= 1
+            if c == "," and depth == 0:
+                out.append("".join(cur).strip())
+                cur = []
+            else:
+                cur.append(c)
+    last = "".join(cur).strip()
+    if last:
+        out.append(last)
+    return out
+
+
+def _fn_def(text, name):
+    """(text before `fn` on its line, parameter texts, body) of the ONLY definition of fn `name` with a body in text, else None"""
+    defs = list(re.finditer(r"\bfn\s+%s\b" % re.escape(name), text))
+    if len(defs) != 1:
+        return None
+    m = defs[0]
+    i = text.find("(", m.end())
+    if i < 0 or text[m.end():i].strip() not in ("",) and not text[m.end():i].strip().startswith("<"):
+        return None
+    e = _close(text, i)
+    if e < 0:
+        return None
+    try:
+        body = fn_body(text, name)
+    except FactError:
+        return None
+    line_start = text.rfind("\n", 0, m.start()) + 1
+    return text[line_start:m.start()], _split_args(text[i + 1:e - 1]), body
+
+
+def inline_calls(text, body, skip=(), depth=2):
+    """`body` with the calls of PRIVATE helper functions of the same file replaced by the helper's body in braces, parameters
+    replaced by the argument texts -- so that an extractor reads a check that was moved into a helper as if it stood where it
+    is called.  Done only where that reading is evidently right: the helper is defined once in `text`, is not `pub`, does not
+    call itself, takes plain `name: Type` parameters (an `&self` receiver only for a `self.helper(..)` call) that it never
+    assigns or borrows mutably, the argument count fits, and a helper containing `return` is inlined only where the call is
+    followed by `?` (its early returns are then early returns of the caller).  Everything else is left as it is."""
+    for _ in range(depth):
+        changed = False
+        for m in list(re.finditer(r"(?:\bSelf::|\bself\.|(?<![\w.:!]))([a-z_][a-z_0-9]*)\(", body)):
+            name = m.group(1)
+            if name in skip or name in ("if", "while", "match", "for", "return", "loop", "fn", "Some", "Ok", "Err"):
+                continue
+            d = _fn_def(text, name)
+            if d is None:
+                continue
+            prefix, params, hbody = d
+            if re.search(r"\bpub\b", prefix) or re.search(r"(?:\bSelf::|\bself\.|(?<![\w.:]))%s\(" % re.escape(name), hbody):
+                continue
+            e = _close(body, m.end() - 1)
+            if e < 0:
+                continue
+            args = _split_args(body[m.end():e - 1])
+            method = m.group(0).startswith("self.")
+            if params and re.fullmatch(r"&?\s*(?:mut\s+)?self", params[0]):
+                if not method:
+                    continue
+                params = params[1:]
+            elif method:
+                continue
+            names = []
+            for prm in params:
+                mp = re.fullmatch(r"([a-z_][a-z_0-9]*)\s*:\s*[^=]+", prm, flags=re.S)
+                if not mp:
+                    names = None
+                    break
+                names.append(mp.group(1))
+            if names is None or len(names) != len(args):
+                continue
+            if any(re.search(r"(?<![\w.])%s\s*(?:[-+*/|&^]|<<|>>)?=(?!=)|&mut\s+%s\b" % (re.escape(n), re.escape(n)), hbody) for n in names):
+                continue
+            if re.search(r"\breturn\b", hbody) and not body[e:].lstrip().startswith("?"):
+                continue
+            inl = hbody
+            # all parameters at once (an argument text may contain the name of another parameter)
+            amap = dict(zip(names, args))
+
+            def sub(mm):
+                a = amap[mm.group(1)]
+                after = mm.string[mm.end():mm.end() + 1]
+                if a.startswith("&") and not a.startswith("&mut") and after == ".":
+                    a = a[1:].strip()
+                if re.fullmatch(r"&?\*?[A-Za-z_][\w.:]*(?:\(\))?|-?[0-9][\w.]*|\"[^\"]*\"", a):
+                    return a
+                return "(" + a + ")"
+            if names:
+                pat = r"(?<![\w.])(%s)\b(?!\s*:(?!:))" % "|".join(re.escape(n) for n in names)
+                inl = "".join(re.sub(pat, sub, seg) if kind == "code" else seg for kind, seg in _segments(inl))
+            body = body[:m.start()] + "{" + inl + "}" + body[e:]
+            changed = True
+            break
+        if not changed:
+            break
+    return body
+
+
 INT_MAX = {
     "u8": 2**8 - 1, "u16": 2**16 - 1, "u32": 2**32 - 1, "u64": 2**64 - 1,
     "i8": 2**7 - 1, "i16": 2**15 - 1, "i32": 2**31 - 1, "i64": 2**63 - 1,
